@@ -113,20 +113,18 @@ impl<'transient, 'lifespan: 'transient, 'element> ElementSpecification<'element>
     pub(crate) fn quick_check_str(string: &str) -> ElementSpecificationLike {
         let n = string.len();
         let mut chars = string.chars();
-        if n == 0 {
-            ElementSpecificationLike::No
-        } else if n == 1 {
-            let first = chars.nth(0).unwrap();
+        let first = match chars.next() {
+            Some(c) => c,
+            None => return ElementSpecificationLike::No,
+        };
+        let last = chars.next_back().unwrap_or(first);
+        if n == 1 {
             (first.is_alphabetic()).into()
         }
         // The one or two letter scenario, most common
         else if n < 3 {
-            let first = chars.nth(0).unwrap();
-            let last = chars.last().unwrap();
             (last != '[' && last != ']' && first.is_alphabetic()).into()
         } else if n == 4 {
-            let first = chars.nth(0).unwrap();
-            let last = chars.last().unwrap();
             if first.is_alphabetic() {
                 if last == ']' {
                     ElementSpecificationLike::Maybe
